@@ -416,7 +416,7 @@ class MDctx:
         st = [x for x in a if x.startswith("st=")]
         capm = [x for x in a if x.startswith("cap=")]
         ddm = [x for x in a if x.startswith("dd=")]
-        return {"dd": ddm[0][3:] if (ddm and dstaddr is not None) else None, "tmpInCap": int(capm[0][4:]) if capm else None, "consumed": int(a[0]), "produced": int(a[1]), "ret": int(a[2]), "fuel": a[3], "oob": a[4], "stage": a[5],
+        return {"ddbounds": "bounds=BAD" not in a, "dd": ddm[0][3:] if (ddm and dstaddr is not None) else None, "tmpInCap": int(capm[0][4:]) if capm else None, "consumed": int(a[0]), "produced": int(a[1]), "ret": int(a[2]), "fuel": a[3], "oob": a[4], "stage": a[5],
                 "outlen": int(a[6]), "outmd5": a[7], "state": st[0][3:] if st else None}
     def reset(self):
         self.orc.ask("reset", self.id)
@@ -532,6 +532,8 @@ class Session:
             problems.append("model ran out of fuel (theorem C08_no_fuel_out contradicted)")
         if m["oob"] != "ok":
             problems.append("model staging buffer overflow flag set (theorem C08_staging_in_bounds contradicted)")
+        if not m.get("ddbounds", True):
+            problems.append("call %d: a memcpy / decoder call of the dictionary bookkeeping model (Model.FrameDDict) leaves tmpOutBuffer[0,maxBufferSize) or the dst window, or overlaps (op_ok of C08_tmpOut_in_bounds_partial violated)" % self.calls)
         if (c_cons, c_prod, c_ret) != (m["consumed"], m["produced"], m["ret"]):
             problems.append("call %d (src %d bytes, cap %d): code (consumed=%d, produced=%d, ret=%d) model (consumed=%d, produced=%d, ret=%d) model stage %s" % (
                 self.calls, len(src), cap, c_cons, c_prod, c_ret, m["consumed"], m["produced"], m["ret"], m["stage"]))
